@@ -357,6 +357,12 @@ func (g *Gen) appendOp(cc *ssa.CallCommon, resT types.Type, pos token.Pos) *Val 
 	}
 	newLen := g.def("applen", "Int", fmt.Sprintf("(+ %s %s)", s.S[2], t.S[2]))
 	inPlace := g.def("appinplace", "Bool", fmt.Sprintf("(<= %s %s)", newLen, s.S[3]))
+	for _, li := range g.inLoop[g.cur] {
+		if li.appendFresh && li.preNext != "" {
+			g.oblige("frame", fmt.Sprintf("(=> (and %s (> %s 0)) (>= %s %s))", inPlace, t.S[2], s.S[0], li.preNext), pos,
+				"append inside a loop writes in place only into an object allocated since the loop was entered", nil)
+		}
+	}
 	// fresh object for the reallocation case
 	preHeap := copyMap(g.heap)
 	fobj := g.def("obj_append", "Int", g.nextobj)
